@@ -169,6 +169,13 @@ func (f *upstreamLimiter) syncLocalFlowControls(flowControls proxyv1alpha1.FlowC
 	for _, newSchema := range flowControls.Schemas {
 		newset.Add(newSchema.Name) //nolint
 		fc, ok := f.flowControls.Load(newSchema.Name)
+		if ok && flowcontrol.GuessFlowControlSchemaType(fc.LocalFlowControl().Config()) != flowcontrol.GuessFlowControlSchemaType(newSchema) {
+			// type changed: create a new flow control instead of replacing the
+			// limiter behind the old one, requests in flight must release the
+			// limiter which admitted them
+			f.flowControls.Delete(newSchema.Name)
+			ok = false
+		}
 		if !ok {
 			// flow control is not created or type changed
 			fc = remote.NewFlowControlCache(f.cluster, newSchema.Name, f.clientID, f.globalCounterProvider)
